@@ -517,6 +517,11 @@ impl MqttShared {
         }
     }
 
+    /// A sender that gives up before anything is written for it does not use its slot
+    pub(super) fn skip_turn(&self) {
+        Self::pass_turn(self.cap.get(), &mut self.queues.borrow_mut());
+    }
+
     /// A sender that fails before its packet is written does not use its slot,
     /// the next queued sender takes the turn
     fn pass_turn(cap: usize, queues: &mut MqttSharedQueues) {
